@@ -17,6 +17,10 @@ EVENTS = [
     {'tag': 'B-max', 'proto': 'cont5', 'over': None, 'minmax': 'max', 'tcls': 'B'},
     {'tag': 'M-other-weights', 'proto': 'mo2', 'over': None, 'weights': [0.3, 0.7]},
 ]
+# events used with dedicated probes
+EV_SAME_TASK = {'tag': 'same-task-object', 'proto': 'cont3z', 'over': None, 'same_task': True}
+EV_B_PROCESS = {'tag': 'B-other-task-process-mode', 'proto': 'cont2s', 'over': None, 'tcls': 'B', 'mode': 'process'}
+EV_A_THREAD = {'tag': 'A-same-config-thread-mode', 'proto': 'cont3z', 'over': None, 'mode': 'thread'}
 
 
 def histories(max_len):
@@ -40,6 +44,12 @@ def jobs(tier, s0):
         es = {'fitness_error': None, 'max_cycles': 3, 'early_stopping': {'patience': 1, 'min_delta': 10.0}}
         for h in ([EVENTS[0]], [EVENTS[4]], [EVENTS[5]], [EVENTS[2]]):
             out.append((_scn(n, 'cont3z', cycles=3, seed=s0, runner='c08', history=h, over=es), {'d': 0}))
+        # fourth probe: the very same seeded task object is handed to the optimizer twice
+        out.append((_scn(n, 'cont3z', cycles=2, seed=s0, runner='c08', history=[EV_SAME_TASK], task_seed=42), {'d': 0}))
+        # fifth probe: pooled modes on a reused instance (model pools, default schedule): another task before
+        for mode, h in (('process', [EV_B_PROCESS]), ('process', [EVENTS[4]]), ('thread', [EV_A_THREAD]),
+                        ('thread', [EV_B_PROCESS])):
+            out.append((_scn(n, 'cont3z', cycles=2, seed=s0, runner='c08', history=h, mode=mode, workers=2), {'d': 0}))
         for mm in ('max',):
             for h in ([EVENTS[0]], [EVENTS[5]], [EVENTS[4]]):
                 out.append((_scn(n, 'cont3z', mm, cycles=2, seed=s0, runner='c08', history=h), {'d': 0}))
